@@ -146,10 +146,14 @@ def record_repo_tests(wd):
     """runs the repository's own saito-core unit tests with the cfg(saito_verif) recorder on; every add_block call
     they make (TestManager, the consensus thread's block queue) is written with the chain state before and after.
     The recording is cached per working-tree state (the three chain checks share it)."""
+    import fcntl
     cache = os.path.join(WORK, "_rtcache")
     os.makedirs(cache, exist_ok=True)
     key = repo_tree_key()
     tr = os.path.join(cache, "trace_%s.ndjson" % key)
+    # one recording at a time (the chain checks may be started side by side)
+    lock = open(os.path.join(cache, "lock"), "w")
+    fcntl.flock(lock, fcntl.LOCK_EX)
     if os.path.exists(tr) and os.path.getsize(tr) > 0:
         return tr, "cached"
     for f in os.listdir(cache):
